@@ -148,8 +148,9 @@ def r15_3(ctx):
                         lu = [x for x in ev[:i] if x.kind == "call" and x.q and x.q.endswith("::level_unlinked")]
                         ctx.check(bool(cas) and _won(p, cas[-1]) is True and bool(lu) and _won(p, lu[-1]) is True, "R15.3", F,
                                   "the helper retires a node only after its own unlink CAS succeeded and the unlink counter reached zero", e.node, detail=R, sig="help-retire-last")
-    if k < 12:
-        ctx.broken("skip-list insert/remove protocol sites not found (%d)" % k)
+    mk = skiplist.rule_mark_cas_from_unmarked(ctx, "R15.3", [f for f in ctx.db.funcs.values() if re.match(r"cds::intrusive::SkipListSet::try_remove_at$", f.q)], R)
+    if k < 12 or mk < 2:
+        ctx.broken("skip-list insert/remove protocol sites not found (%d, %d mark CAS sites)" % (k, mk))
 r15_3.rule_id = "R15.3"
 
 
